@@ -166,6 +166,10 @@ class PythonCryptoEndpoint(CryptoEndpoint, EndpointListener):
         if not self.incoming_crypto(cell):
             return
 
+        if not cell.message:
+            self.logger.warning("Dropping cell (empty message)")
+            return
+
         self.logger.debug("Got cell(%s) from circuit %d (sender %s)", cell.message[0], circuit_id, source_address)
 
         if (not cell.relay_early and cell.message[0] == 4) or self.max_relay_early <= 0:
